@@ -53,6 +53,16 @@ def call(s, rng, force_bad=False):
 
 
 def cases(rng, tier):
+    aas = "ACDEFGHIKLMNPQRSTVWY"
+    reps = {20: aas, 18: "LVCAGSTPFYWEDNQKRH", 15: "LCAGSTPFWEQDNKH", 12: "LCAGSPFWEDKH", 11: "LCAGSPFEKHQ", 10: "LCAGSPFEKH", 8: "LASPFEKH", 6: "LAPFEK",
+            5: "LAFEK", 4: "LAFE", 3: "LFE", 2: "LE"}
+    for size, rp in reps.items():
+        for mult in (1, 2):
+            win = list(rp * mult)
+            rng.shuffle(win)
+            sq = "".join(win) + "".join(rng.choice(aas) for _ in range(rng.randint(0, 9)))
+            for st in (1, 3):
+                yield Case(["q cplx %s WF %d - %d %d 3" % (sq, size, len(win), st)], {"kind": "uniform-window"})
     # the same query several times in a row on one object
     for c in gen.repeated_call_cases(rng, 8 if tier == "quick" else 60, ['cplx WF 20 - 4 1 3'], gen.CLAMP_BAND[:8] if False else ()):
         yield c
